@@ -1,6 +1,6 @@
 (* C15 — step-size control: rejected steps shrink the step and keep the point (loop level and
    controller level). *)
-From Verif Require Import Loop LoopInst LoopProofs LoopProofs2 LoopTop StepCtl CtlProofs.
+From Verif Require Import Loop LoopInst LoopProofs LoopProofs2 LoopTop StepCtl CtlProofs PICtl PIProofs.
 From Coq Require Import Lqa.
 
 Section C15.
@@ -122,3 +122,21 @@ Print Assumptions C15_rejected_increases_lambda.
 Print Assumptions C15_rejected_increases_lambda_no_deadline.
 Print Assumptions C15_lambda_stays_positive.
 Print Assumptions C15_never_accepts_unevaluable_point.
+
+(* ---------------- the PI controller behind the ratio controllers (controller.py), on the scale it works on ----------------
+   after any number of updates since the last reset it returns K_P * (current error) + K_I * (sum of the errors), the
+   errors being reference minus measurement; with non-negative gains and measurements at or below the reference the
+   output is non-negative (on log scale: the multiplier exp(output) of the step size is at least one) *)
+Theorem C15_pi_output : forall c vals s v,
+  snd (run_updates c s (vals ++ [v]))
+  == pi_KP c * (pi_ref c - v) + pi_KI c * (s + err_sum (pi_ref c) vals + (pi_ref c - v)).
+Proof. exact pi_output. Qed.
+Theorem C15_pi_output_sign : forall c vals v,
+  0 <= pi_KP c -> 0 <= pi_KI c -> Forall (fun w => w <= pi_ref c) vals -> v <= pi_ref c ->
+  0 <= snd (run_updates c 0 (vals ++ [v])).
+Proof. exact pi_output_sign. Qed.
+Example C15_pi_nonvacuous :
+  map Qred (pi_run (mk_pi_cfg (1 # 2) (1 # 4) 2) 0 [PiUpdate 1; PiUpdate 3; PiReset; PiUpdate 0]) = [3 # 4; - (1 # 2); 3 # 2].
+Proof. vm_compute. reflexivity. Qed.
+Print Assumptions C15_pi_output.
+Print Assumptions C15_pi_output_sign.
